@@ -43,6 +43,7 @@ def sandbox(tmp, lua_final_nl):
             f.write(HDR + b'c1=1\n-->8\nc2=2\n#include L.lua\nc3=3\n-->8\n__gfx__\n')
         g = cartio.make_game(cartio.memory((0, 0), {}), LINE['P1'] + b'\n' + LINE['P2'] + b'\n', None, 8)
         gfile.to_file(g, os.path.join(S, d, 'T.p8.png'))
+    os.symlink(S, S + '_ln')          # the same directory reached through a symbolic link
     _SB[key] = S
     return S
 
@@ -78,14 +79,28 @@ def _case(item):
                 want.append(b'm%d=%d' % (k, k))
             else:
                 want.append(LINE[e])
+    # the ways a user can name the same cart file: absolute, through a symlinked directory, relative to the
+    # working directory, with redundant components
+    how = (len(lines) * 7 + sum(len(l) for l in lines)) % 4
+    given = cart
+    cwd = os.getcwd()
+    if how == 1:
+        given = os.path.join(S + '_ln', os.path.basename(cart))
+    elif how == 2:
+        os.chdir(S)
+        given = os.path.basename(cart)
+    elif how == 3:
+        given = os.path.join(S, 'sub', '..', '.', os.path.basename(cart))
     try:
-        g = gfile.from_file(cart)
+        g = gfile.from_file(given)
         got = [l.rstrip(b'\n') for l in b''.join(g.lua.to_lines()).split(b'\n')]
         if got and got[-1] == b'':
             got = got[:-1]
         outcome = 'ok'
     except Exception as e:  # noqa
         got, outcome = [], 'error:%s' % type(e).__name__
+    finally:
+        os.chdir(cwd)
     return want, got, outcome
 
 
